@@ -122,7 +122,10 @@ def gen_devop(rng):
         op["open_errno"] = rng.choice([13, 13, 16, 2])        # the OS refuses the first open of the node (EACCES, EBUSY, ENOENT)
     r = rng.random()
     if r < 0.4:
-        op["initiator"] = "iqn.2026-10.verif:explicit%d" % rng.randrange(9)
+        # iSCSI names come in three formats (RFC 3720): iqn., eui., naa.
+        op["initiator"] = rng.choice(["iqn.2026-10.verif:explicit%d" % rng.randrange(9), "iqn.2026-10.verif:explicit%d" % rng.randrange(9),
+                                      "eui.02004567A425678D", "naa.52004567BA64678D"])
+        op["positional"] = rng.random() < 0.5        # init_device(dev, read_write, initiator_name) as documented, by position
     elif r < 0.5:
         op["initiator"] = ""
     return op
@@ -326,9 +329,12 @@ def execute(prog):
             if via == "init_device":
                 if op.get("rw"):
                     kw["read_write"] = True
-                if "initiator" in op:
-                    kw["initiator_name"] = op["initiator"]
-                fn = lambda: init_device(s, **kw)
+                if "initiator" in op and op.get("positional"):
+                    fn = lambda: init_device(s, bool(op.get("rw")), op["initiator"])
+                else:
+                    if "initiator" in op:
+                        kw["initiator_name"] = op["initiator"]
+                    fn = lambda: init_device(s, **kw)
             elif via == "SCSIDevice":
                 def fn():
                     from pyscsi.pyscsi.scsi_device import SCSIDevice      # a module that does not import is judged like a failing call
